@@ -17,7 +17,7 @@ func init() {
 			"D3 directories never reach the dispatch, non-regular files only when symlink reading is on and the mode is a symlink; D4 the directory-skip predicate consults each of the five skip rules on every path that answers 'do not skip', each rule's match leads to 'skip', the skip list is an exact-path lookup, and SkipDir is returned iff the predicate holds; " +
 			"D5 files matched by gitignore patterns never reach the dispatch, and the pattern stack stays balanced (every directory that returns nil/SkipDir pushed exactly one set, the pop removes exactly one under the same conditions); D6 every package of an Extract result is attributed to the extractor that produced it and appended to the inventory whenever the result is non-empty (also when Extract returned an error), Scan merges filesystem and standalone inventories; " +
 			"D7 the walker calls the callback before listing a directory, recurses into every successfully read entry, leaves the loop only on EOF / callback error / SkipDir, and never originates SkipDir itself; D8 whole-tree and explicit-path walks use the same callbacks, explicit directories get their parents' gitignore patterns. " +
-			"Added in round 3: the skip predicate, as a boolean function of its tests, equals the disjunction of the five configured skip rules (decision table); the decisions and early exits that keep the current file from an extractor are the audited ones; the size-limit rule of C10 is shared. Added in round 7: D9 an extractor required by several detectors is enabled once — the seen-set EnableRequiredExtractors consults is extended on every path that appends. NOT decided: correctness of glob/regex/gitignore matching, path-prefix stripping, set equality of inventories, FileRequired predicates (values).",
+			"Added in round 3: the skip predicate, as a boolean function of its tests, equals the disjunction of the five configured skip rules (decision table); the decisions and early exits that keep the current file from an extractor are the audited ones; the size-limit rule of C10 is shared. Added in round 7: D9 an extractor required by several detectors is enabled once — the seen-set EnableRequiredExtractors consults is extended on every path that appends. Added in round 8: D8 additionally: the path whose .gitignore ParseParentGitignores reads derives from a string the loop carries from component to component. NOT decided: correctness of glob/regex/gitignore matching, path-prefix stripping, set equality of inventories, FileRequired predicates (values).",
 		Run: runC01,
 		Controls: []Mutant{
 			{Name: "negate-filerequired", File: "extractor/filesystem/filesystem.go", Old: "if ex.FileRequired(wc.fileAPI) {", New: "if !ex.FileRequired(wc.fileAPI) {", Rule: "D1-dispatch", Site: "handleFile"},
@@ -73,6 +73,7 @@ func runC01(p *Prog, r *Report) {
 	c01Same(p, r, e)
 	loopLeftOnlyWithError(p, r, "D8-same", e.walkIndividual, "walkContext", "pathsToExtract", "walkIndividualPaths can return from inside its loop over the requested paths with a value that may be nil (the callback's verdict on a failed stat, say): when it is nil, every requested path after this one is silently never walked and the scan still reports success")
 	c01ParentPatternsReset(p, r, e, "D8-same")
+	ancestorChainAccumulates(p, r, "D8-same")
 	r.Rule("D5-balanced", "gitignore push/pop balanced: patterns of skipped directories never unbalance the stack")
 	c08Balanced(p, r, e, "D5-balanced")
 	r.Rule("D9-enabled-once", "an extractor required by several detectors is enabled once")
